@@ -10,7 +10,10 @@
 \*        thorough / records / shutdown; x = storage type derived from the start location, or the
 \*        ShadowDelete flag handed to MaintainRecordStates), the number of reads and writes that reached a
 \*        storage, for Migrate the migrations that ran, the fields of the Diagnostics and the version the
-\*        storage holds afterwards; file: the content of databases.json after the operation
+\*        storage holds afterwards; file: the content of databases.json after the operation.
+\*        op "race": op.par are operations released at the same time (w = "gate": first uses and injections are
+\*        parked at the yield point in front of the controllers lock until the others have finished), res.errs
+\*        their result classes, res.calls the calls of all of them
 EXTENDS DbReg, Json
 
 Trace == ndJsonDeserialize("trace.ndjson")
@@ -28,7 +31,7 @@ New == /\ l <= Len(Trace) /\ Trace[l].e = "new"
 Norm(o, ev) == [o EXCEPT !.fails = Range(@), !.vetoes = Range(@), !.fll = Range(@),
                          !.tie = [i \in 1..Len(ev.res.runs) |-> ev.res.runs[i].id]]
 
-KnownOps == {"proc", "init", "register", "use", "inject", "withdraw", "fail", "maintain", "shutdown", "madd", "migrate"}
+KnownOps == {"proc", "init", "register", "use", "inject", "withdraw", "fail", "maintain", "shutdown", "madd", "migrate", "race"}
 \* the step makes sense in the state the model is in (the generator guarantees it; a driver cannot smuggle
 \* in anything else)
 WellFormed(o) ==
@@ -40,12 +43,21 @@ WellFormed(o) ==
             ELSE o.fll = {r.n : r \in {x \in st.file : x.ll}})
     /\ (o.op = "shutdown" /\ st.mod => st.inited)
     /\ (o.op = "maintain" => o.w \in Kinds)
+    \* a race: at most 4 operations; a failing factory is not asked twice (its calls could not be told apart)
+    /\ (o.op = "race" => /\ Len(o.par) \in 1..4
+                         /\ \A i \in 1..Len(o.par) : o.par[i].op \in {"use", "inject", "register", "shutdown"}
+                         /\ (st.mod => \A i \in 1..Len(o.par) : o.par[i].op # "shutdown")
+                         /\ \A i \in 1..Len(o.par) : o.par[i].op = "register" => o.par[i].t # "nostart"
+                         /\ \A i, j \in 1..Len(o.par) : (i # j /\ o.par[i].op = "use" /\ o.par[j].op = "use" /\ o.par[i].n = o.par[j].n)
+                                                           => ~(Has(st, o.par[i].n) /\ Desc(st, o.par[i].n).t = "nostart"))
     /\ (o.op = "madd" => /\ \A i \in 1..Len(o.batch) : \A k \in 1..Len(st.migs) : st.migs[k].id # o.batch[i].id
                          /\ \A i, j \in 1..Len(o.batch) : i # j => o.batch[i].id # o.batch[j].id)
 
 Match(x, ev) ==
     LET r == x.res IN
     /\ ErrOK(r.err, ev.res.err)
+    /\ Len(ev.res.errs) = Len(r.errs)
+    /\ \A i \in 1..Len(r.errs) : ErrOK(r.errs[i], ev.res.errs[i])
     /\ ev.res.robj \in r.robj
     /\ CallsOK(r, ev.res.calls)
     /\ (r.io = "zero" => ev.res.io = 0)
